@@ -5,7 +5,7 @@ bacpypes.core (run, run_once, deferred) on the virtual clock of vf.world.
 """
 from ..api import Inst, Violation, meta
 from ..world import World
-from ..ref.C14_sched import RefScheduler, judge, NEVER, SUSPENDED
+from ..ref.C14_sched import RefScheduler, judge, NEVER, SUSPENDED, PENDING
 
 import bacpypes.core as core
 import bacpypes.task as taskmod
@@ -152,7 +152,9 @@ def sched_ops(d, ntasks, nops, drive, pre, short=False):
             ref.suspend(lbl)
         else:
             st = ref.state[lbl]
-            d.assume(st == SUSPENDED or st == NEVER)
+            # resume_task is "just re-install it": on a suspended task it brings it back, on a task that is still
+            # pending it is a re-installation for the same time (moved behind its equals, never duplicated)
+            d.assume(st == SUSPENDED or st == NEVER or st == PENDING)
             trace.append((op, lbl))
             if st == NEVER:
                 try:
